@@ -32,10 +32,14 @@ Definition rotvec_scale (a : R) : R := if Req_EM_T a 0 then / 2 else sin (a / 2)
 Definition from_rotvec (rv : vecR) : quatR :=
   let a := sqrt (dot3 RRing rv rv) in
   let k := rotvec_scale a in (k * v0 rv, k * v1 rv, k * v2 rv, cos (a / 2)).
-(* as_rotvec of a canonical (w >= 0) unit quaternion: angle = 2 atan2(|v|, w) = 2 acos w; rotvec = angle/sin(angle/2) * v
-   (2/sinc(angle/(2 pi)) in the code; 2 at angle 0) *)
+(* atan2 as the polar angle in (-pi, pi] of the point (x, y) (= torch.atan2(y, x) away from the origin) *)
+Definition atan2 (y x : R) : R :=
+  let r := sqrt (x * x + y * y) in if Rlt_dec y 0 then - acos (x / r) else acos (x / r).
+Definition hypot (x y : R) : R := sqrt (x * x + y * y).
+(* as_rotvec of a canonical (w >= 0) quaternion: angle = 2 atan2(|v|, w); rotvec = angle/sin(angle/2) * v
+   (scale 2/sinc(angle/(2 pi)) in the code, i.e. 2 at angle 0) *)
 Definition as_rotvec (q : quatR) : vecR :=
-  let a := 2 * acos (q3 q) in
+  let a := 2 * atan2 (sqrt (dot3 RRing (qvec RRing q) (qvec RRing q))) (q3 q) in
   let k := if Req_EM_T a 0 then 2 else a / sin (a / 2) in (k * q0 q, k * q1 q, k * q2 q).
 (* __pow__ for an integer n outside the shortcuts: from_rotvec(n * rotvec) with the parity flag *)
 Definition rpow_code (n : Z) (rv : vecR) (f : bool) : rotR := (from_rotvec (vscal RRing (IZR n) rv), pow_flag n f).
@@ -62,10 +66,6 @@ Definition matrix_to_quat (i : nat) (m : matR) : quatR := qscal RRing (/ (2 * sq
 Definition nth_comp (i : nat) (q : quatR) : R := match i with 0%nat => q0 q | 1%nat => q1 q | 2%nat => q2 q | _ => q3 q end.
 
 (* ---- as_euler: model of _quaternion_to_euler (Bernardes-Viollet) ---- *)
-(* atan2 as the polar angle in (-pi, pi] of the point (x, y) (= torch.atan2(y, x) away from the origin) *)
-Definition atan2 (y x : R) : R :=
-  let r := sqrt (x * x + y * y) in if Rlt_dec y 0 then - acos (x / r) else acos (x / r).
-Definition hypot (x y : R) : R := sqrt (x * x + y * y).
 (* (q - r) * (r - s) * (s - q) // 2 : +1 for an even, -1 for an odd permutation of (0,1,2) *)
 Definition perm_sign (q r s : nat) : R :=
   IZR ((Z.of_nat q - Z.of_nat r) * (Z.of_nat r - Z.of_nat s) * (Z.of_nat s - Z.of_nat q) / 2).
@@ -82,7 +82,7 @@ Definition euler_abcd (quat : quatR) (q r s0 : nat) : bool * R * (R * R * R * R)
   let s := if symmetric then (3 - q - r)%nat else s0 in
   let sign := perm_sign q r s in
   let w := q3 quat in let cq := nth_comp q quat in let cr := nth_comp r quat in let cs := nth_comp s quat in
-  (symmetric, sign, if symmetric then (w, cq, cr, cs * sign) else (w - cr, cq + cs * sign, cr + w, cs * sign - cq)).
+  (symmetric, sign, if symmetric then abcd_sym RRing w cq cr cs sign else abcd_asym RRing w cq cr cs sign).
 Definition quaternion_to_euler (quat : quatR) (seq : nat * nat * nat) (extrinsic : bool) : R * R * R :=
   let '(s0, s1, s2) := seq in
   let '(q, r, s) := if extrinsic then (s0, s1, s2) else (s2, s1, s0) in
@@ -112,3 +112,12 @@ Definition euler_regular (quat : quatR) (seq : nat * nat * nat) (extrinsic : boo
   gimbal_eps < Rabs angles_1 /\ gimbal_eps < Rabs (angles_1 - PI).
 Definition valid_seq (seq : nat * nat * nat) : Prop :=
   let '(s0, s1, s2) := seq in (s0 < 3)%nat /\ (s1 < 3)%nat /\ (s2 < 3)%nat /\ s0 <> s1 /\ s1 <> s2.
+
+(* the regular-case angles before the intrinsic swap and the wrap to (-pi, pi] *)
+Definition euler_core (quat : quatR) (q r s0 : nat) : R * R * R :=
+  let '(sym, sign, (a, b, c, d)) := euler_abcd quat q r s0 in
+  let A := atan2 (hypot c d) (hypot a b) in let hs := atan2 b a in let hd := atan2 d c in
+  (hs - hd, if sym then 2 * A else 2 * A - PI / 2, if sym then hs + hd else (hs + hd) * sign).
+Definition abcd_regular (quat : quatR) (q r s0 : nat) : Prop :=
+  let '(_, _, (a, b, c, d)) := euler_abcd quat q r s0 in 0 < a * a + b * b /\ 0 < c * c + d * d.
+
